@@ -72,9 +72,14 @@ CONST_OPS = {
     "str_contains": [(("string",), [("", False, False), ("a", False, False), ("b a", False, False)])],
     "str_replace_all": [(("string",), [("a", "X"), ("ab", ""), (" ", "__")])],
     "str_slice": [(("string",), [(0, 2), (1, 3), (2, 0)])],
+    # (no rounding ties in the grid: ROUND_INTS / ROUND_FLOATS below)
+    "round": [(("rint",), [(-2,), (-1,), (0,), (1,)]), (("rfloat",), [(0,), (1,), (2,)])],
 }
-GRID = {"int": INTS, "float": FLOATS, "bool": BOOLS, "string": STRS}
-DT = {"int": "int64", "float": "float64", "bool": "bool", "string": "string"}
+NO_MODEL = {"round"}          # evaluated on the two backends and against the documented value, not by the Lean model
+ROUND_INTS = [None, 0, 1234, -2468, 49, -51, 7, 100, 99999]
+ROUND_FLOATS = [None, 0.0, 1.26, -2.74, 12.3456, -0.04, 8.126]       # no value halfway between two results
+GRID = {"int": INTS, "float": FLOATS, "bool": BOOLS, "string": STRS, "rint": ROUND_INTS, "rfloat": ROUND_FLOATS}
+DT = {"int": "int64", "float": "float64", "bool": "bool", "string": "string", "rint": "int64", "rfloat": "float64"}
 
 
 def _float_close(a, b) -> bool:
@@ -83,6 +88,22 @@ def _float_close(a, b) -> bool:
     if isinstance(a, float) and isinstance(b, float) and not (math.isnan(a) or math.isnan(b) or math.isinf(a) or math.isinf(b)):
         return abs(a - b) <= 1e-12 * max(abs(a), abs(b))
     return True
+
+
+def documented(op, args):
+    """the documented value of the operators the Lean model does not evaluate (grid without rounding ties)"""
+    if op == "round":
+        x, d = args
+        if x is None:
+            return None
+        if isinstance(x, int):
+            if d >= 0:
+                return x
+            q = 10 ** (-d)
+            return int((abs(x) + q // 2) // q * q) * (1 if x >= 0 else -1)
+        from decimal import ROUND_HALF_EVEN, Decimal
+        return float(Decimal(repr(x)).quantize(Decimal(1).scaleb(-d), rounding=ROUND_HALF_EVEN))
+    raise KeyError(op)
 
 
 def in_domain(op, args) -> bool:
@@ -175,6 +196,55 @@ def program_for(case) -> dict:
     return dict(tables=[dict(name="g", cols=cols)], stmts=stmts)
 
 
+def temporal_stream():
+    """the component functions of dates and datetimes (`.dt.year()` … `.dt.day_of_week()`, `.dt.day_of_year()`): the documented value
+    (Python's calendar; Monday = 1 … Sunday = 7) on both backends, over a grid with every weekday, leap days, year ends and
+    sub-second parts"""
+    import datetime as dt
+
+    import polars as pl
+    import pydiverse.transform as pdt
+    import sqlalchemy as sqa
+
+    base = dt.date(2023, 12, 25)                       # a Monday; 14 consecutive days cross a year end
+    dates = [base + dt.timedelta(days=i) for i in range(14)] + [dt.date(2020, 2, 29), dt.date(2000, 3, 1), dt.date(1999, 12, 31), dt.date(1970, 1, 1), None]
+    stamps = [dt.datetime(d.year, d.month, d.day, (7 * i) % 24, (13 * i) % 60, (17 * i) % 60, (i * 123457) % 1000000) if d is not None else None
+              for i, d in enumerate(dates)]
+    df = pl.DataFrame({"k": list(range(len(dates))), "d": dates, "t": stamps}, schema={"k": pl.Int64, "d": pl.Date, "t": pl.Datetime("us")})
+    eng = sqa.create_engine("sqlite://")
+    df.write_database("c03temporal", eng)
+    fns = {
+        "year": lambda x: x.year, "month": lambda x: x.month, "day": lambda x: x.day, "day_of_week": lambda x: x.isoweekday(),
+        "day_of_year": lambda x: x.timetuple().tm_yday,
+        "hour": lambda x: x.hour, "minute": lambda x: x.minute, "second": lambda x: x.second,
+        "millisecond": lambda x: x.microsecond // 1000, "microsecond": lambda x: x.microsecond,
+    }
+    diffs, n = [], 0
+    for col, vals in (("d", dates), ("t", stamps)):
+        for fname, ref in fns.items():
+            if col == "d" and fname in ("hour", "minute", "second", "millisecond", "microsecond"):
+                continue
+            want = [None if x is None else ref(x) for x in vals]
+            for be in ("polars", "sqlite"):
+                if be == "sqlite" and fname in ("millisecond", "microsecond"):
+                    continue      # the library itself warns (NonStandardWarning): SQLite returns rounded sub-second parts
+                t = pdt.Table(df, name="c03temporal") if be == "polars" else pdt.Table("c03temporal", pdt.SqlAlchemy(eng))
+                try:
+                    e = getattr(t[col].dt, fname)()
+                    # as a value, and as a predicate (rows kept by `f(x) >= median`)
+                    out = t >> pdt.mutate(y=e) >> pdt.arrange(t.k) >> pdt.select(pdt.C.y) >> pdt.export(pdt.Polars())
+                    got = out.get_column("y").to_list()
+                except Exception as ex:  # noqa: BLE001
+                    diffs.append(dict(kind="backend_error", op="dt_" + fname, backend=be, exc=type(ex).__name__, msg=str(ex)[:160], form=col))
+                    continue
+                n += len(got)
+                if got != want:
+                    bad = [(repr(x), g, w) for x, g, w in zip(vals, got, want) if g != w][:4]
+                    diffs.append(dict(kind="documented_value_differs", op="dt_" + fname, backend=be, form=col, args=[b[0] for b in bad],
+                                      got=[b[1] for b in bad], documented=[b[2] for b in bad]))
+    return diffs, n
+
+
 def run(tier: str, seed: int) -> int:
     v = Verdict(PROP, tier, seed)
     rng = random.Random(seed)
@@ -199,6 +269,8 @@ def run(tier: str, seed: int) -> int:
                 outs[be] = ("ok", [r[yi] for r in ex["frame"]["rows"]])
         case["outs"] = outs
         for ri, r in enumerate(case["rows"]):
+            if case["op"] in NO_MODEL:
+                continue
             model_reqs.append(dict(cmd="ew", op=case["op"], args=[lit_json(x) for x in r]))
             model_idx.append((ci, ri))
         per_op[case["op"]] = per_op.get(case["op"], 0) + len(case["rows"])
@@ -207,8 +279,11 @@ def run(tier: str, seed: int) -> int:
     k = 0
     for ci, case in enumerate(cases):
         n = len(case["rows"])
-        mvals = model_out[k:k + n] if model_out is not None else [None] * n
-        k += n
+        if case["op"] in NO_MODEL:
+            mvals = [documented(case["op"], r) for r in case["rows"]] if model_out is not None else [None] * n
+        else:
+            mvals = model_out[k:k + n] if model_out is not None else [None] * n
+            k += n
         pol, sq = case["outs"]["polars"], case["outs"]["sqlite"]
         for be, o in (("polars", pol), ("sqlite", sq)):
             if o[0] == "error":
@@ -223,6 +298,9 @@ def run(tier: str, seed: int) -> int:
                 if not oracle.cell_eq(a, m):
                     corr.append(dict(kind="model_differs", op=case["op"], form=case["form"], args=list(r), polars=a, model=m))
 
+    tdiffs, n_temporal = temporal_stream()
+    diffs += tdiffs
+    n_eval += n_temporal
     known_hits, new = {}, []
     for d in diffs:
         fid = None
@@ -271,5 +349,6 @@ def run(tier: str, seed: int) -> int:
         known_findings_hit={k_: len(c) for k_, c in known_hits.items()},
     )
     v.assumptions = ["float-valued results (truediv, float arithmetic, floor/ceil) are compared on the grid but not proved (Lean's Float is opaque)",
-                     "transcendental functions, round, pow, date/time operators are outside the modelled set (listed in the evidence)"]
+                     "transcendental functions, pow and duration operators are outside the modelled set (listed in the evidence); round (grid without "
+                     "ties) and the date / datetime component functions are compared with their documented value on both backends, not by the Lean model"]
     return v.finish("proof")
